@@ -1,3 +1,6 @@
+#[cfg(feature = "verif-hooks")]
+use crate::verif_shim::HashMap;
+#[cfg(not(feature = "verif-hooks"))]
 use std::collections::HashMap;
 
 struct UnionFind {
